@@ -88,6 +88,7 @@ class Ctx:
     def tlc(self, module, cfg, *, stage="S1", count=True, expect_ok=True, spec_dir=None, **kw):
         res = T.run_tlc(spec_dir or self.spec_dir, module, cfg, **kw)
         T.require_ok(res, f"{self.prop} {stage} {module}/{cfg}")
+        self._last_tlc_out = res.out
         if count:
             self.states += res.distinct
             self.transitions += res.generated
